@@ -1,9 +1,10 @@
 """C16 — sequence-number wrap-around is invisible."""
-import vlib
+import vlib, simcommon
 
 PROP = "C16"
 PROPS_FILE = "props/C16.v"
 COQ_FILES = ["gen/Gen.v", "proofs/SnaProofs.v", "model/RPQ.v", "proofs/RPQProofs.v", "props/C16.v"]
+# (the differentials below also need the models of their components to be extractable: RQ.v, StreamW.v, Sender.v)
 TRUSTED_BASE = [
     "Coq 8.16.1 kernel (vm_compute used in Examples only; no native_compute)",
     "translator /verif/go/translator (Go subset -> Gallina over Z; uintN arithmetic as mod 2^N)",
@@ -31,6 +32,12 @@ def correspondence(ctx):
     vlib.monitor(ctx, "rpq-offset-sweep", "TestVerifRPQShift",
                  {"VERIF_N": ctx.scale(60, 600), "VERIF_BASES": ctx.scale(12, 64)},
                  fail_prefixes=("SHIFTDIFF",), classify=classify_shift, summary_prefix="RPQSHIFT")
+    # every component that compares sequence numbers, exercised with start values at their wraps
+    vlib.differential(ctx, "rq-differential-near-wraps", "TestVerifRQ", "rq", {"VERIF_N": ctx.scale(150, 3000)})
+    vlib.differential(ctx, "streamw-differential-near-wraps", "TestVerifStreamW", "streamw", {"VERIF_N": ctx.scale(150, 3000)})
+    vlib.differential(ctx, "sender-step-commuting-near-wraps", "TestVerifSimSender", "sender",
+                      {"VERIF_N": ctx.scale(60, 1500), "VERIF_EVENTS": 250}, timeout=3000)
+    simcommon.transfer(ctx, quick=60, thorough=2500)
     if ctx.tier == "thorough":
         vlib.monitor(ctx, "sna16-exhaustive", "TestVerifSna16Exhaustive", {}, fail_prefixes=("SNA16BAD",),
                      classify=lambda l: "sna-law", summary_prefix="SNA16", timeout=3000)
